@@ -349,10 +349,10 @@ add("C05", "TestC05", note_current=True,
           "reads into the delivered tree. Oracle: model.Greedy (recursive greedy non-backtracking matcher incl. the EDI top-level "
           "repetition pinned by the repo's test) - same target trees from RawRecord().Raw(), same count, same terminal kind, same copy() "
           "JSON; EDI tokenizer observed directly. Thorough tier adds TestC05Enum: per drawn hierarchy ALL unit sequences up to length 6 "
-          "over its alphabet plus X. Non-trivial: the model makes >= 1 move-on decision and >= 1 repeat; distinct by SHA-256 of the case. Every case is also delivered byte by byte (final byte together with io.EOF): same outcome as the whole input. fixedlength2 hierarchies in 40 % of the cases start every line with 1 or 3 pad characters and write their header/footer/line_pattern regexes without the '^' anchor."),
+          "over its alphabet plus X. Non-trivial: the model makes >= 1 move-on decision and >= 1 repeat; distinct by SHA-256 of the case. Every case is also delivered byte by byte (final byte together with io.EOF): same outcome as the whole input. fixedlength2 hierarchies in 40 % of the cases start every line with 1 or 3 pad characters and write their header/footer/line_pattern regexes without the '^' anchor. One case in ten is a long input (a valid instance repeated to 4-9 KB, blank lines cycled; half of these fixedlength2): line buffers roll over while records are being assembled (class long-input)."),
     quick={"checks": 2500, "shards": 4, "timeout": 900},
     thorough={"checks": 60000, "shards": 16, "timeout": 3300, "extra": [{"test": "TestC05Enum", "checks": 25, "shards": 16}]},
-    floors={"outcome=fatal": 0.30, "target-in-group": 0.20, "format=edi": 0.15, "format=csv2": 0.15, "format=fixedlength2": 0.15,
+    floors={"long-input": 0.05, "outcome=fatal": 0.30, "target-in-group": 0.20, "format=edi": 0.15, "format=csv2": 0.15, "format=fixedlength2": 0.15,
             "no-final-terminator": 0.08, "blank-lines": 0.10, "empty-input": 0.03, "edi-root-repeats": 0.01,
             "group-first-member-is-group": 0.15, "__nontrivial__": 0.15, "nesting>=10": 0.02},
     assumptions=["max = 0 is excluded (the statement says max in {1,2,...,unbounded}); header/footer regexes are anchored literals",
